@@ -102,6 +102,8 @@ type Prop struct {
 	Assumptions []string
 }
 
+var devVerbose bool
+
 var Props = map[string]*Prop{}
 
 func Register(p *Prop) { Props[p.ID] = p }
@@ -244,6 +246,9 @@ func RunWorker(t *testing.T, spec *WorkerSpec) *WorkerOut {
 	nt := map[uint64]struct{}{}
 	one := func(idx uint64, keepSample bool) {
 		ch, seed := chooserFor(p, enum, spec.BaseSeed, idx)
+		if devVerbose {
+			fmt.Printf("run %d seed %d at %v\n", idx, seed, time.Since(start))
+		}
 		res := ExecRun(t, p, ch, keepSample, spec.Tier)
 		out.Runs++
 		if idx < uint64(len(enum)) {
@@ -255,6 +260,12 @@ func RunWorker(t *testing.T, spec *WorkerSpec) *WorkerOut {
 			out.Faults[k] += v
 		}
 		for k, v := range res.Probes {
+			if strings.HasPrefix(k, "max:") {
+				if v > out.Probes[k] {
+					out.Probes[k] = v
+				}
+				continue
+			}
 			out.Probes[k] += v
 		}
 		if res.Outcome != "" {
